@@ -40,6 +40,33 @@ let step_str = function
   | Shf -> "S"
 let seq_str (s : repair list) : string = if s = [] then "-" else String.concat " " (List.map step_str s)
 
+(* untrusted work estimates (they only decide whether a case is skipped as too big) *)
+exception Too_big
+let count_nodes g a input ifuel pN costsN (cc : int) (pn : int) stk p (cap : int) : int =
+  let n = ref 0 in
+  let mvs = moves g in
+  let rec go d c stk p k ld =
+    incr n; if !n > cap then raise Too_big;
+    if done_at g a input ifuel pN k stk p then () else
+    if d <= 0 then () else
+    List.iter (fun m ->
+      if allowed g ld m then begin
+        let mc = int_of_n (mcost g input costsN m p) in
+        if mc <= c then
+          match sstep g a input ifuel m stk p with
+          | Some (stk', p') -> go (d - 1) (c - mc) stk' p' (next_k k m) (is_del m)
+          | None -> ()
+      end) mvs in
+  go ((cc + 1) * pn) cc stk p O false; !n
+
+let rec count_unfold (cap : int) (t : rtree) : int =
+  let r = match t with
+    | RTerm -> 0
+    | RRep (_, pa) -> Stdlib.max 1 (count_unfold cap pa)
+    | RMrg (_, alts, pa) -> List.fold_left (fun acc x -> if acc > cap then acc else acc + count_unfold cap x)
+                              (Stdlib.max 1 (count_unfold cap pa)) alts in
+  if r > cap then cap + 1 else r
+
 let rec take n = function [] -> [] | x :: r -> if n <= 0 then [] else x :: take (n - 1) r
 
 let () =
@@ -62,7 +89,7 @@ let () =
                                              | [k; v] -> Hashtbl.replace opt k v | _ -> ()) kvs
       | _ -> ()) secs;
     let geto k dflt = try float_of_string (Hashtbl.find opt k) with Not_found -> dflt in
-    let t_step = geto "tstep" 0.15 in        (* a bound that took longer than this without a success: give up *)
+    let ncap = int_of_float (geto "ncap" 150000.0) in   (* nodes of the enumeration tree beyond which the reference is not computed *)
     let max_edits = int_of_float (geto "maxedits" 6.0) in
     let mfuel = int_of_float (geto "mfuel" 60000.0) in
     let ecap = int_of_float (geto "ecap" 12.0) in
@@ -119,10 +146,14 @@ let () =
               List.iter (fun cc ->
                 if !result = None && !status <> "cap" then begin
                   if cc / mincost > max_edits then status := "cap" else begin
-                    let t0 = Sys.time () in
-                    (match ranked_successes g a input ifuel pN costsN tRY [n_of_int cc] stk p with
-                     | Some ((m, fm), l) -> result := Some (int_of_n m, int_of_nat fm, l); status := "some"
-                     | None -> if Sys.time () -. t0 > t_step then status := "cap")
+                    match (try Some (count_nodes g a input ifuel pN costsN cc !pn stk p ncap) with Too_big -> None) with
+                    | None -> status := "cap"
+                    | Some _ ->
+                        (match ranked_successes g a input ifuel pN costsN tRY [n_of_int cc] stk p with
+                         | Some ((m, fm), l) ->
+                             if List.length l > scap then status := "cap"
+                             else (result := Some (int_of_n m, int_of_nat fm, l); status := "some")
+                         | None -> ())
                   end
                 end) sched
             with Stack_overflow -> status := "cap"; result := None);
@@ -139,7 +170,12 @@ let () =
             if !status <> "cap" then begin
               (* the mirror of the search, pinned and repaired *)
                  List.iter (fun (tag, fixed) ->
-                   match (try search_mirror fixed g a input ifuel pN costsN tRY avoidN (nat_of_int mfuel) stk p
+                   let small = (try (match dijkstra fixed g a input ifuel pN costsN (nat_of_int mfuel) stk p with
+                                          | Done cnds -> List.fold_left (fun acc nd -> if acc > scap then acc else acc + count_unfold scap nd.n_rep) 0 cnds <= scap
+                                          | _ -> true)
+                                with Stack_overflow -> false) in
+                   match (if not small then OutOfFuel else
+                          try search_mirror fixed g a input ifuel pN costsN tRY avoidN (nat_of_int mfuel) stk p
                           with Stack_overflow -> OutOfFuel) with
                    | Done out ->
                        Buffer.add_string b (Printf.sprintf " # %s done %d" tag (List.length out));
